@@ -37,13 +37,13 @@ Theorem C01_core_equivalence :
          (instr lit_ok awc : string -> bool) (e : expr),
     (forall f, awc f = false) ->     (* no method "allowed without callee": see C01_bare_call_refuted below *)
     src e ->
-    forall c h t,
-      let e' := fst (rw instr lit_ok awc e c) in
-      let c' := snd (rw instr lit_ok awc e c) in
+    forall c h t,                    (* the plus operator is configured: see C01_plus_off_refuted below *)
+      let e' := fst (rw instr lit_ok awc true e c) in
+      let c' := snd (rw instr lit_ok awc true e c) in
       c <= c' /\
       forall o h', (forall t2 : tenv, eval respond ustore e (h, t2) = (o, (h', t2))) ->
         exists t', eval respond ustore e' (h, t) = (o, (h', t')) /\ frame c c' t t'.
-Proof. intros respond ustore instr lit_ok awc e NA Hs. exact (rw_correct respond ustore instr lit_ok awc NA e Hs). Qed.
+Proof. intros respond ustore instr lit_ok awc e NA Hs. exact (rw_correct respond ustore instr lit_ok awc NA (plus_on:=true) eq_refl e Hs). Qed.
 Print Assumptions C01_core_equivalence.
 
 (** The premise is always met: a source expression has an outcome and a history that do not depend on
@@ -60,32 +60,32 @@ Print Assumptions C01_source_ignores_temporaries.
 Example C01_core_example :
   let all := fun _ : string => true in
   let none := fun _ : string => false in
-  fst (rw all all none (Add (CallE (Var "f") (Var "x")) (Var "y")) 0) =
+  fst (rw all all none true (Add (CallE (Var "f") (Var "x")) (Var "y")) 0) =
     Hoist1 0 (CallE (Var "f") (Var "x")) (Hook (Add (Tmp 0) (Var "y")) [Tmp 0; Var "y"]) /\
-  fst (rw all all none (Add (Var "y") (CallE (Var "f") (Var "x"))) 0) =
+  fst (rw all all none true (Add (Var "y") (CallE (Var "f") (Var "x"))) 0) =
     Hoist2 0 (Var "y") 1 (CallE (Var "f") (Var "x")) (Hook (Add (Tmp 0) (Tmp 1)) [Tmp 0; Tmp 1]) /\
-  fst (rw all all none (Add (Add (Lit (VStr "a")) (Lit (VStr "b"))) (Var "y")) 0) =
+  fst (rw all all none true (Add (Add (Lit (VStr "a")) (Lit (VStr "b"))) (Var "y")) 0) =
     Hoist1 0 (Var "y") (Hook (Add (Add (Lit (VStr "a")) (Lit (VStr "b"))) (Tmp 0)) [Tmp 0]) /\
-  fst (rw all all none (MCall1 (Var "s") "concat" (Lit (VStr "x"))) 0) =
+  fst (rw all all none true (MCall1 (Var "s") "concat" (Lit (VStr "x"))) 0) =
     Hoist2 0 (Var "s") 1 (Get (Tmp 0) "concat")
            (Hook (CallT1 (Tmp 1) (Tmp 0) (Lit (VStr "x"))) [Tmp 1; Tmp 0; Lit (VStr "x")]) /\
-  fst (rw all all none (MCall0 (Lit (VStr "s")) "trim") 0) =
+  fst (rw all all none true (MCall0 (Lit (VStr "s")) "trim") 0) =
     Hoist1 0 (Get (Lit (VStr "s")) "trim") (Hook (CallT0 (Tmp 0) (Lit (VStr "s"))) [Tmp 0; Lit (VStr "s")]) /\
   (* o().p += s : the object is evaluated once *)
-  fst (rw all all none (AddAsgM (CallE (Var "o") (Var "z")) "p" (Var "s")) 0) =
+  fst (rw all all none true (AddAsgM (CallE (Var "o") (Var "z")) "p" (Var "s")) 0) =
     Hoist1 0 (CallE (Var "o") (Var "z"))
       (AsgM (Tmp 0) "p" (Hoist1 1 (Get (Tmp 0) "p") (Hook (Add (Tmp 1) (Var "s")) [Tmp 1; Var "s"]))) /\
   (* `a${x}b${f(y)}c` : identifiers are captured too; a template with a literal substitution is left alone *)
-  fst (rw all all none (Tpl2 "a" (Var "x") "b" (CallE (Var "f") (Var "y")) "c") 0) =
+  fst (rw all all none true (Tpl2 "a" (Var "x") "b" (CallE (Var "f") (Var "y")) "c") 0) =
     Hoist2 0 (Var "x") 1 (CallE (Var "f") (Var "y")) (Hook (Tpl2 "a" (Tmp 0) "b" (Tmp 1) "c") [Tmp 0; Tmp 1]) /\
-  fst (rw all all none (Tpl2 "" (Lit (VStr "l")) "" (Add (Var "x") (Var "y")) "") 0) =
+  fst (rw all all none true (Tpl2 "" (Lit (VStr "l")) "" (Add (Var "x") (Var "y")) "") 0) =
     Tpl2 "" (Lit (VStr "l")) "" (Add (Var "x") (Var "y")) "" /\
   (* g(a)?.trim() : the guard temporary first, then the call on it (captured once more, like any identifier receiver) *)
-  fst (rw all all none (OptMCall0 (CallE (Var "g") (Var "a")) "trim") 0) =
+  fst (rw all all none true (OptMCall0 (CallE (Var "g") (Var "a")) "trim") 0) =
     Guard 0 (CallE (Var "g") (Var "a"))
       (Hoist2 1 (Tmp 0) 2 (Get (Tmp 1) "trim") (Hook (CallT0 (Tmp 2) (Tmp 1)) [Tmp 2; Tmp 1])) /\
   (* a chain on a literal receiver is left alone, its argument is still rewritten *)
-  fst (rw all all none (OptMCall1 (Lit (VStr "l")) "concat" (Add (Var "x") (Var "y"))) 0) =
+  fst (rw all all none true (OptMCall1 (Lit (VStr "l")) "concat" (Add (Var "x") (Var "y"))) 0) =
     OptMCall1 (Lit (VStr "l")) "concat" (Hook (Add (Var "x") (Var "y")) [Var "x"; Var "y"]).
 Proof. repeat split; reflexivity. Qed.
 
@@ -133,13 +133,33 @@ Example C01_bare_call_refuted :
   let e := CallE (Var "alone") (CallE (Var "g") (Lit (VStr "x"))) in
   let t0 : tenv := fun _ => VUndef in
   src e /\
-  fst (rw none none awc e 0) =
+  fst (rw none none awc true e 0) =
     Hoist1 0 (CallE (Var "g") (Lit (VStr "x")))
       (Hook (CallE (Var "alone") (Tmp 0)) [Var "alone"; Var "undefined"; Tmp 0]) /\
   (* the source: g is called, then the ORIGINAL function (object 1) with the result *)
   fst (snd (eval respond ustore e ([], t0))) =
     [EvCall (VObj 1) [VStr "x"]; EvCall (VObj 1) [VStr "r"]] /\
   (* the rewritten expression: g is called, then whatever the identifier holds by then (object 2) *)
-  fst (snd (eval respond ustore (fst (rw none none awc e 0)) ([], t0))) =
+  fst (snd (eval respond ustore (fst (rw none none awc true e 0)) ([], t0))) =
     [EvCall (VObj 1) [VStr "x"]; EvCall (VObj 2) [VStr "r"]].
+Proof. cbv zeta. repeat split; vm_compute; try reflexivity; auto. Qed.
+
+(** ** ... and FALSE when the plus operator is not configured (open finding 21b).
+    A sum then stays where it is, also when it is a substitution of an instrumented template (or an argument of an
+    instrumented method call): it is not captured and runs AFTER the operands that were.  Witness: [`p${g(a) + 'x'}q${h(b)}`]
+    with the template operator on and the plus operator off; the source calls [g] then [h], the rewritten expression [h] then [g]. *)
+Example C01_plus_off_refuted :
+  let respond := fun (_ : hist) (ev : event) => match ev with EvCall f _ => RRet f | _ => RRet (VStr "r") end in
+  let ustore := fun (_ : hist) (x : string) => if String.eqb x "g" then VObj 1 else if String.eqb x "h" then VObj 2 else VStr x in
+  let none := fun _ : string => false in
+  let e := Tpl2 "p" (Add (CallE (Var "g") (Var "a")) (Lit (VStr "x"))) "q" (CallE (Var "h") (Var "b")) "" in
+  let t0 : tenv := fun _ => VUndef in
+  src e /\
+  fst (rw none none none false e 0) =
+    Hoist1 0 (CallE (Var "h") (Var "b"))
+      (Hook (Tpl2 "p" (Add (CallE (Var "g") (Var "a")) (Lit (VStr "x"))) "q" (Tmp 0) "") [Tmp 0]) /\
+  map (fun ev => match ev with EvCall f _ => Some f | _ => None end)
+      (fst (snd (eval respond ustore e ([], t0)))) = [Some (VObj 1); None; Some (VObj 2); None] /\
+  map (fun ev => match ev with EvCall f _ => Some f | _ => None end)
+      (fst (snd (eval respond ustore (fst (rw none none none false e 0)) ([], t0)))) = [Some (VObj 2); Some (VObj 1); None; None].
 Proof. cbv zeta. repeat split; vm_compute; try reflexivity; auto. Qed.
